@@ -1,4 +1,5 @@
 import KcpVerif.Lemmas.Sched
+import KcpVerif.Lemmas.SchedSource
 /-!
 C17 — timed scheduler: every task runs exactly once, never early.
 
@@ -18,6 +19,12 @@ namespace KcpVerif.Props
 open KcpVerif KcpVerif.Sched
 
 variable {m : Mode} {k : Nat} {t0 : Time} {s : State}
+
+/-- **source pin** (tie X): the functions of timedsched.go in the repository's working tree are,
+    token for token, the ones the transition system was transcribed from.  Any edit of `Put`,
+    `prepend`, `sched`, the heap or `NewTimedSched` breaks this theorem until the model has been
+    re-validated (see Lemmas/SchedSource.lean). -/
+theorem C17_source_pinned : Gen.timedschedSrc = pinnedSrc := rfl
 
 /-- **conservation**: what was submitted is, as a multiset, what is waiting in `prependTasks`, in
     the prepend goroutine's batch, in the hands/heaps of the workers, or executed; and no id is
